@@ -131,23 +131,43 @@ def check_length(rep, mod, cfg, variant, two, size):
     return
 
 
+def _worker(args):
+    from ..report import Report
+    cfg, variant, two, sizes = args
+    mod = front.module(cfg)
+    r = Report('C07', 'quick')
+    for size in sizes:
+        check_length(r, mod, cfg, variant, two, size)
+    return r.obl
+
+
 def run(rep, tier, seed):
     rep.rule_text = ('linear_hash_seq / linear_hash / linear_hash_avx512 interpreted abstractly for each length in the bound with the permutation as an '
                      'opaque hash-consed function: digest cells must equal the reference sponge written in the checker (rate 8, capacity 4, zero '
                      'capacity first, zero padding, first four outputs fed back; <=4 elements passed through and zero padded), the input read set '
                      'must be exactly the declared length, all accesses stay inside state/input/output extents; universal in element values')
+    import multiprocessing as mp, os
     N = 256 if tier == "quick" else 2048
     sizes = list(range(0, N + 1))
+    nproc = min(16, os.cpu_count() or 4)
+    jobs = []
     for cfg in ('avx2', 'avx512'):
-        mod = front.module(cfg)
         for variant, two in VARIANTS:
             if two == 2 and cfg != 'avx512':
                 continue
-            for size in sizes:
-                check_length(rep, mod, cfg, variant, two, size)
+            # interleave long and short lengths so that the chunks have similar cost
+            for i in range(nproc):
+                ch = sizes[i::nproc]
+                if ch:
+                    jobs.append((cfg, variant, two, ch))
+    with mp.Pool(nproc) as pool:
+        for obl in pool.map(_worker, jobs):
+            rep.obl += obl
+    for cfg in ('avx2', 'avx512'):
         rep.sample(dict(config=cfg, variants=[v for v, t in VARIANTS if t == 1 or cfg == 'avx512'], lengths='0..%d' % N))
+    rep.floor('length x variant configurations', len(rep.obl), 5 * (N + 1))
     rep.cov['lengths'] = '0..%d (every residue mod 8, both sides of the <=4 threshold)' % N
     rep.cov['exhaustive'] = False
     rep.assumptions += ['bounded in the input length (0..%d); universal in element values and representations' % N,
                         'the permutation is treated as an opaque function (C06 decides it)']
-    rep.trusted = ['clang 14 lowering', 'glv abstract interpreter']
+    rep.trusted = ['clang 14 lowering', 'glv interpreter']
